@@ -276,7 +276,7 @@ def ob_writer_step(ctx, kind, dims=1):
     return res
 
 
-def ob_writer_tour(ctx, kinds, dims=1, rates=(7, 3, 2, 5, 4), closed=True):
+def ob_writer_tour(ctx, kinds, dims=1, rates=(7, 3, 2, 5, 4), closed=True, time_aware=False):
     """C03: the complete `create_tour` (real MIR: interval fold, departure stop, statistics fold, final clean-up pass) on a
     closed tour whose job activities have the given kinds, with the schedule of the forward simulation: the reported
     per-tour statistic equals the recomputation from routing data, vehicle costs and the visiting order (distance, duration,
@@ -284,7 +284,7 @@ def ob_writer_tour(ctx, kinds, dims=1, rates=(7, 3, 2, 5, 4), closed=True):
     the load on board after it (initial load = sum of static deliveries, then -delivery +pickup per activity; the
     arrival at the end reports what is left = the static pickups)."""
     k = len(kinds)
-    name = f'writer_tour[{",".join(kinds) or "empty"},dims={dims},rates={"/".join(map(str, rates))}{"" if closed else ",open"}]'
+    name = f'writer_tour[{",".join(kinds) or "empty"},dims={dims},rates={"/".join(map(str, rates))}{"" if closed else ",open"}{",time-dependent routing" if time_aware else ""}]'
     res = Result(name)
     res.bounds = (f'{"closed" if closed else "open"} tour start + {k} job activities ({", ".join(kinds)}){" + end" if closed else ""}, all at pairwise different locations; {dims} load dimension(s), amounts in '
                   f'[0,2^14]; times/distances integer-valued in [0,2^16]; cost rates (fixed, distance, driving, waiting, service) = {rates}; no reloads, breaks only as job kind, '
@@ -331,6 +331,7 @@ def ob_writer_tour(ctx, kinds, dims=1, rates=(7, 3, 2, 5, 4), closed=True):
             return super().default_of(engine, ty)
 
     env = Env(ctx.prog, ctx.layout, 16)
+    env.time_aware = time_aware
     eng, _ = ctx.engines(env)
 
     def mdl(vals, size):
@@ -355,7 +356,7 @@ def ob_writer_tour(ctx, kinds, dims=1, rates=(7, 3, 2, 5, 4), closed=True):
         for i, kind in enumerate(kinds, start=1):
             dur, tws, arr, dep = S(f'dur{i}'), S(f'tws{i}'), S(f'arr{i}'), S(f'dep{i}')
             prev = nodes[-1]
-            env.assumptions.append(arr.v == prev['dep'].v + env.Dur(prev['loc'].t, locs[i].t))
+            env.assumptions.append(arr.v == prev['dep'].v + env.dur_at(prev['loc'].t, locs[i].t, prev['dep'].v))
             env.assumptions.append(dep.v == z3.If(arr.v > tws.v, arr.v, tws.v) + dur.v)
             pick = [I(f'pick{i}_{d}') for d in range(dims)]
             deli = [I(f'deli{i}_{d}') for d in range(dims)]
@@ -383,7 +384,7 @@ def ob_writer_tour(ctx, kinds, dims=1, rates=(7, 3, 2, 5, 4), closed=True):
         if closed:
             arr_e = S('arr_end')
             prev = nodes[-1]
-            env.assumptions.append(arr_e.v == prev['dep'].v + env.Dur(prev['loc'].t, locs[k + 1].t))
+            env.assumptions.append(arr_e.v == prev['dep'].v + env.dur_at(prev['loc'].t, locs[k + 1].t, prev['dep'].v))
             acts.append(env.activity(locs[k + 1], FV.const(0), FV.const(0), FV.max_value(), arr_e, arr_e, has_job=False))
             nodes.append({'loc': locs[k + 1], 'dur': FV.const(0), 'tws': FV.const(0), 'arr': arr_e, 'dep': arr_e, 'kind': 'arrival'})
         # concrete, pairwise different rates (the cost is linear in the rates; symbolic rates x symbolic sums is non-linear)
@@ -406,7 +407,7 @@ def ob_writer_tour(ctx, kinds, dims=1, rates=(7, 3, 2, 5, 4), closed=True):
     saw = 0
     for st, out in paths:
         nodes, demands, vc = holder['nodes'], holder['demands'], holder['vc']
-        legs = [(env.Dur(a['loc'].t, b['loc'].t), env.Dist(a['loc'].t, b['loc'].t)) for a, b in zip(nodes, nodes[1:])]
+        legs = [(env.dur_at(a['loc'].t, b['loc'].t, a['dep'].v), env.dist_at(a['loc'].t, b['loc'].t, a['dep'].v)) for a, b in zip(nodes, nodes[1:])]
         dom = [z3.And(d >= 0, d <= env.bound, s >= 0, s <= env.bound) for d, s in legs]
         if out is None:
             if not no_panic(ctx, res, env, st, dom, what=name):
@@ -546,8 +547,23 @@ def writer_case(m, env, nodes, demands, rates, dims, closed=True):
                                        'capacity': [1000000] * dims}],
                          'profiles': [{'name': 'car'}]}}
     matrix = {'profile': 'car', 'travelTimes': [x for row in dur for x in row], 'distances': [x for row in dist for x in row]}
-    return {'kind': 'writer_tour', 'problem': problem, 'matrix': matrix, 'order': order, 'dep0': dep0, 'jobs_ref': ref, 'dur': dur, 'dist': dist,
+    case = {'kind': 'writer_tour', 'problem': problem, 'matrix': matrix, 'order': order, 'dep0': dep0, 'jobs_ref': ref, 'dur': dur, 'dist': dist,
             'rates': list(rates), 'dims': dims, 'closed': closed}
+    if env.time_aware:
+        # one matrix per time at which the tour (or a changed look-up) can ask: every arrival and departure of the model
+        times = sorted({ev(nd[key].v) for nd in nodes for key in ('arr', 'dep')})
+        clamp = lambda v: max(0, min(v, env.bound))
+        tables = {}
+        for t in times:
+            tv = z3.IntVal(t)
+            tables[str(t)] = {
+                'dur': [[0 if i == j else clamp(ev(env.DurT(nodes[i]['loc'].t, nodes[j]['loc'].t, tv))) for j in range(n)] for i in range(n)],
+                'dist': [[0 if i == j else clamp(ev(env.DistT(nodes[i]['loc'].t, nodes[j]['loc'].t, tv))) for j in range(n)] for i in range(n)]}
+        case['matrices'] = [{'profile': 'car', 'timestamp': rfc3339(t), 'travelTimes': [x for row in tables[str(t)]['dur'] for x in row],
+                             'distances': [x for row in tables[str(t)]['dist'] for x in row]} for t in times]
+        case['tables'] = tables
+        case['table_times'] = times
+    return case
 
 
 def ob_statistic_sum(ctx):
